@@ -32,7 +32,7 @@ import (
 	"verif/ophar"
 )
 
-const Watchdog = 30 * time.Second
+const Watchdog = 10 * time.Second
 
 // ---------------------------------------------------------------- storage location recorder
 
@@ -141,6 +141,7 @@ type Worker struct {
 	Dead   bool
 	Range  partitioning.KeyGroupRange
 	hasRng bool
+	reader *VReader // the reader of its current deployment
 }
 
 type Cluster struct {
@@ -158,6 +159,9 @@ type Cluster struct {
 	opAcks   []OpAck
 	deploys  []DeployRec
 	startCk  []StartCkRec
+	keyed    []KeyedRec
+	edgeErrs []string
+	keyedMax map[string]int64
 	errc     chan error
 	jobErrs  []error
 	nextW    int
@@ -168,6 +172,24 @@ type Cluster struct {
 	FailDeploy func(node string) error
 	checks     func(h *ophar.Handler, key []byte, pl ophar.Payload, sh ophar.KeyShadow) (string, string)
 	jobGen     int
+	Latency    func(seq int)             // optional handler latency
+	OnOpAck    func(a OpAck, w *Worker) // synchronous, on the operator's event loop, before the ack is forwarded
+}
+
+// SetChecks installs the per-keyed-event state check of every worker's handler.
+func (c *Cluster) SetChecks(fn func(h *ophar.Handler, key []byte, pl ophar.Payload, sh ophar.KeyShadow) (string, string)) {
+	c.checks = fn
+}
+
+func (c *Cluster) Lock()   { c.mu.Lock() }
+func (c *Cluster) Unlock() { c.mu.Unlock() }
+
+// ReaderLive reports whether the reader belongs to a live worker's current deployment.
+func (c *Cluster) ReaderLive(r *VReader) bool {
+	c.mu.Lock()
+	defer c.mu.Unlock()
+	w := c.bySR[r.Runner]
+	return w != nil && !w.Dead && w.reader == r
 }
 
 type DeployRec struct {
@@ -188,7 +210,7 @@ type StartCkRec struct {
 }
 
 func New(cfg Config) *Cluster {
-	c := &Cluster{Cfg: cfg, byOp: map[string]*Worker{}, bySR: map[string]*Worker{}, Store: ophar.NewShadowStore(), errc: make(chan error, 100)}
+	c := &Cluster{Cfg: cfg, byOp: map[string]*Worker{}, bySR: map[string]*Worker{}, Store: ophar.NewShadowStore(), errc: make(chan error, 100), keyedMax: map[string]int64{}}
 	c.Loc = &RecLocation{StorageLocation: locations.NewLocalDirectory(filepath.Join(cfg.Dir, "job"))}
 	go func() {
 		for e := range c.errc {
@@ -241,13 +263,17 @@ func (c *Cluster) AddWorker() *Worker {
 	w.H = ophar.NewHandlerSharing(w.OpID, c.Store)
 	w.H.TimerProg = c.TimerFn
 	w.H.Check = c.checks
-	kh := &keyHandler{c: c, inner: w.H}
+	w.H.OnCall = c.Latency
+	kh := &keyHandler{c: c, inner: w.H, w: w}
 	ja := jobAd{c: c, w: w}
 	opFactory := func(sender string, n *jobpb.NodeIdentity) proto.Operator { return &opAd{c: c, sender: sender, node: n} }
 	w.SR = sourcerunner.New(sourcerunner.NewParams{Host: "host-" + name, UserHandler: kh, Job: ja, Clock: w.clock, OperatorFactory: opFactory, EventBatching: c.Cfg.Batch,
 		SourceReaderFactory: func(*jobconfigpb.Source) connectors.SourceReader {
 			r := c.Cfg.Source.NewSourceReader(connectors.SourceReaderHooks{}).(*VReader)
 			r.Runner = w.SR.ID
+			c.mu.Lock()
+			w.reader = r
+			c.mu.Unlock()
 			return r
 		}})
 	w.SR.ID = "sr-" + name
@@ -386,6 +412,13 @@ func (c *Cluster) StartCheckpoints() []StartCkRec {
 	defer c.mu.Unlock()
 	return append([]StartCkRec{}, c.startCk...)
 }
+// EdgeErrors lists errors returned by operators to source runners.
+func (c *Cluster) EdgeErrors() []string {
+	c.mu.Lock()
+	defer c.mu.Unlock()
+	return append([]string{}, c.edgeErrs...)
+}
+
 func (c *Cluster) JobErrors() []error {
 	c.mu.Lock()
 	defer c.mu.Unlock()
@@ -456,7 +489,11 @@ func (a jobAd) OperatorCheckpointComplete(ctx context.Context, r *snapshotpb.Ope
 	a.c.mu.Lock()
 	a.c.opAcks = append(a.c.opAcks, ack)
 	hold := a.c.HoldOpAck
+	onAck := a.c.OnOpAck
 	a.c.mu.Unlock()
+	if onAck != nil {
+		onAck(ack, a.w)
+	}
 	if hold != nil {
 		hold(ack)
 	}
@@ -530,6 +567,9 @@ func (a *opAd) HandleEventBatch(ctx context.Context, b []*workerpb.Event) error 
 		a.c.stream = append(a.c.stream, se)
 		a.c.mu.Unlock()
 		if err := w.Op.HandleEvent(ctx, a.sender, e); err != nil {
+			a.c.mu.Lock()
+			a.c.edgeErrs = append(a.c.edgeErrs, fmt.Sprintf("HandleEvent(%s -> %s, %c): %v", a.sender, a.node.Id, se.Kind, err))
+			a.c.mu.Unlock()
 			return err
 		}
 	}
@@ -665,6 +705,29 @@ func (a *srAd) StartCheckpoint(ctx context.Context, id uint64) error {
 type keyHandler struct {
 	c     *Cluster
 	inner *ophar.Handler
+	w     *Worker
+}
+
+// KeyedRec is one KeyEventBatch call: the largest timestamp the runner had keyed by then.
+type KeyedRec struct {
+	Tick   int64
+	Runner string
+	MaxTs  int64
+	N      int
+}
+
+// KeyedLog returns the KeyEventBatch log.
+func (c *Cluster) KeyedLog() []KeyedRec {
+	c.mu.Lock()
+	defer c.mu.Unlock()
+	return append([]KeyedRec{}, c.keyed...)
+}
+
+// RangeOf returns the key-group range the worker's operator was last deployed with.
+func (c *Cluster) RangeOf(w *Worker) (partitioning.KeyGroupRange, bool) {
+	c.mu.Lock()
+	defer c.mu.Unlock()
+	return w.Range, w.hasRng
 }
 
 func (h *keyHandler) ProcessEventBatch(ctx context.Context, req *handlerpb.ProcessEventBatchRequest) (*handlerpb.ProcessEventBatchResponse, error) {
@@ -674,13 +737,24 @@ func (h *keyHandler) ProcessEventBatch(ctx context.Context, req *handlerpb.Proce
 // KeyEventBatch turns records into keyed events: normally one, sometimes zero or two.
 func (h *keyHandler) KeyEventBatch(ctx context.Context, events [][]byte) ([][]*handlerpb.KeyedEvent, error) {
 	out := make([][]*handlerpb.KeyedEvent, len(events))
+	maxTs := int64(-1 << 62)
 	for i, e := range events {
 		rec, err := DecodeRecord(e)
 		if err != nil {
 			return nil, err
 		}
 		out[i] = h.c.KeyedEventsOf(rec)
+		if len(out[i]) > 0 && rec.Ts > maxTs {
+			maxTs = rec.Ts
+		}
 	}
+	h.c.mu.Lock()
+	if n := len(h.c.keyed); n > 0 && h.c.keyedMax[h.w.SR.ID] > maxTs {
+		maxTs = h.c.keyedMax[h.w.SR.ID]
+	}
+	h.c.keyedMax[h.w.SR.ID] = maxTs
+	h.c.keyed = append(h.c.keyed, KeyedRec{Tick: lib.Tick.Add(1), Runner: h.w.SR.ID, MaxTs: maxTs, N: len(events)})
+	h.c.mu.Unlock()
 	return out, nil
 }
 
